@@ -445,6 +445,13 @@ func init() {
 	})
 	// PacedClock(maxStepNs): from now on two consecutive clock readings differ by at most
 	// maxStepNs unless a Pause lies between them. Pause(ns): the clock jumps by ns..2ns.
+	reg(zz+"ConcreteClock", func(fr *frame, args []value) value {
+		fr.i.ps.clockConcrete = uint64(args[0].(int64))
+		if fr.i.ps.clockNow == 0 {
+			fr.i.ps.clockNow = 1600000000000000000
+		}
+		return nil
+	})
 	reg(zz+"PacedClock", func(fr *frame, args []value) value {
 		fr.i.ps.clockMaxStep = uint64(args[0].(int64))
 		return nil
